@@ -135,7 +135,7 @@ Print Assumptions elite_carried_into_next_generation.
    calls over the n = evo_steps // num_envs iterations; otherwise num_envs // learn_step calls in every iteration. *)
 Theorem learn_schedule : forall c h m,
   (lp c = Off \/ lp c = MAOff) -> 1 <= num_envs c ->
-  ready c h (mem_add c (num_envs c) m) = true ->
+  ready c h (mem_add c (num_envs c) (turn_start m)) = true ->
   r_learn (snd (rollout c h m)) =
     if num_envs c <? ls h then cdiv (evo_steps c / num_envs c) (ls h / num_envs c)
     else (evo_steps c / num_envs c) * (num_envs c / ls h).
@@ -184,7 +184,7 @@ Print Assumptions checkpoint_count.
 Theorem learn_schedule_warmup : forall c h m,
   (lp c = Off \/ lp c = MAOff) -> 1 <= num_envs c ->
   let n := evo_steps c / num_envs c in
-  let w := warmup c h n m in
+  let w := warmup c h n (turn_start m) in
   r_learn (snd (rollout c h m)) =
     if num_envs c <? ls h then cdiv n (ls h / num_envs c) - cdiv w (ls h / num_envs c)
     else (n - w) * (num_envs c / ls h).
@@ -216,6 +216,22 @@ Theorem bandit_learn_schedule_warmup : forall c h n m r,
   r_learn (snd (rollout_bandit c h n m r)) = r_learn r + (n - warmup_bandit c h n m) * ls h.
 Proof. exact bandit_schedule_warmup_lemma. Qed.
 Print Assumptions bandit_learn_schedule_warmup.
+
+(* Transitions stored per turn. The n-step window is emptied when the environment is reset at the start of EVERY
+   individual's turn (every individual, every generation), so a turn of n = evo_steps // num_envs iterations stores
+   (n - (n_step - 1)) x num_envs transitions in the memories (all n x num_envs without an n-step buffer) ... *)
+Theorem turn_stores : forall c h m,
+  (lp c = Off \/ lp c = MAOff) ->
+  added (fst (rollout c h m)) = added m + (evo_steps c / num_envs c - (nstep c - 1)) * num_envs c.
+Proof. exact turn_stores_lemma. Qed.
+Print Assumptions turn_stores.
+
+(* ... and during the first n_step - 1 iterations of a turn the memories hold exactly what they held when it started
+   (this is the n-step part of the warm-up count w of [learn_schedule_warmup], repeated in every turn). *)
+Theorem nstep_window_refills_every_turn : forall c m j,
+  j < nstep c -> added (adds c j (turn_start m)) = added m.
+Proof. exact adds_turn_start_lemma. Qed.
+Print Assumptions nstep_window_refills_every_turn.
 
 (* ---- non-vacuity: concrete runs of the model ---- *)
 Definition cfg_off : cfg :=
@@ -251,6 +267,16 @@ Proof. vm_compute. split; reflexivity. Qed.
 Example warmup_example :
   warmup cfg_off {| ls := 3; bs := 4 |} 4 {| added := 0; calls := 0 |} = 1.
 Proof. vm_compute. reflexivity. Qed.
+
+(* n-step window of length 3, 4 iterations of 2 sub-environments per turn: every turn stores (4 - 2) * 2 = 4 transitions,
+   also the second individual's turn and the next generation's *)
+Example turn_stores_example :
+  let c := {| lp := Off; num_envs := 2; evo_steps := 8; max_steps := 16; episode_steps := 0; delay := 0; mem_cap := 64;
+              nstep := 3; checkpoint := 0; evolve := false; elitism := true; tour_pop := 2; eval_loop := 1; target := None |} in
+  exists st, run 20 c (init_state [fresh_agent 0; fresh_agent 1])
+               (fun _ => {| g_hps := [{| ls := 1; bs := 2 |}; {| ls := 1; bs := 2 |}]; g_fit := [0; 0]%Q; g_parents := [] |}) 0
+             = Some (st, 2) /\ added (memo st) = 16.
+Proof. eexists. vm_compute. repeat split. Qed.
 
 Example learn_schedule_example :
   map r_learn (o_roll (snd (gen cfg_off (init_state [fresh_agent 0; fresh_agent 1]) (inp_off 0)))) = [3; 8].
